@@ -8,6 +8,7 @@ import os.path
 import numpy as np
 from glob import glob
 import abel
+from abel.tools.io import save_npy_atomic
 from scipy.linalg import inv
 
 ###############################################################################
@@ -381,7 +382,7 @@ def get_bs_cached(method, cols, basis_dir='', verbose=False):
 
     if basis_dir is not None:
         path_to_basis_file = os.path.join(basis_dir, D_name)
-        np.save(path_to_basis_file, _D)
+        save_npy_atomic(path_to_basis_file, _D)
         if verbose:
             print("\ndeconvolution operator array saved to '{:s}"
                   .format(path_to_basis_file))
